@@ -74,6 +74,7 @@ package vector
 //@   ensures v.count > 0 ==> v.count - result >= 1
 
 //@ func vector.Index
+//@   nowrite
 //@   props C06
 //@   pure
 //@   skip type-assert
@@ -85,7 +86,10 @@ package vector
 //@   ensures !ok ==> val == nil
 
 //@ func vector.Assoc
+//@   props C06
+//@   nowrite
 //@   pure
+//@   nosafety
 //@   requires [wf] 0 <= v.count && v.count < 4611686018427387904
 //@   assumes v.count == vlen(v)
 //@   assumes (result != nil) == (0 <= i && i <= vlen(v))
@@ -93,6 +97,7 @@ package vector
 //@   assumes i == vlen(v) ==> vec_len(result) == vlen(v) + 1 && vec_at(result, i) === val && (forall k int :: 0 <= k && k < vlen(v) ==> vec_at(result, k) === vat(v, k))
 
 //@ func vector.SubVector
+//@   nowrite
 //@   props C06
 //@   pure
 //@   results r
@@ -114,6 +119,7 @@ package vector
 //@   ensures result == s.end - s.begin
 
 //@ func subVector.Index
+//@   nowrite
 //@   props C06
 //@   pure
 //@   results val ok
@@ -124,6 +130,7 @@ package vector
 //@   ensures !ok ==> val == nil
 
 //@ func subVector.SubVector
+//@   nowrite
 //@   props C06
 //@   pure
 //@   results r
@@ -132,6 +139,7 @@ package vector
 //@   ensures r != nil ==> vec_len(r) == j - i && (forall k int :: 0 <= k && k < j - i ==> vec_at(r, k) === vat(s.v, s.begin + i + k))
 
 //@ func subVector.Assoc
+//@   nowrite
 //@   props C06
 //@   pure
 //@   results r
@@ -141,6 +149,7 @@ package vector
 //@   ensures 0 <= i && i < s.end - s.begin ==> (forall k int :: 0 <= k && k < s.end - s.begin && k != i ==> vec_at(r, k) === vat(s.v, s.begin + k))
 
 //@ func subVector.Conj
+//@   nowrite
 //@   props C06
 //@   pure
 //@   results r
@@ -149,9 +158,79 @@ package vector
 //@   ensures forall k int :: 0 <= k && k < s.end - s.begin ==> vec_at(r, k) === vat(s.v, s.begin + k)
 
 //@ func subVector.Pop
+//@   nowrite
 //@   props C06
 //@   pure
 //@   results r
 //@   requires swf(s)
 //@   ensures (r == nil) == (s.end == s.begin)
 //@   ensures s.end - s.begin >= 2 ==> vec_len(r) == s.end - s.begin - 1 && (forall k int :: 0 <= k && k < s.end - s.begin - 1 ==> vec_at(r, k) === vat(s.v, s.begin + k))
+
+// ---------------------------------------------------------------------------
+// C06, immutability frame (`nowrite`): no operation changes an object that
+// existed before the call - every store goes to a node, tail or vector header
+// allocated by the operation itself, for every length and tree height. This is
+// what makes "no operation ever changes a previously obtained list" a theorem
+// rather than a sampled fact. (Index safety of the tree walks is not part of
+// these obligations: nosafety.)
+
+//@ func newNode
+//@   props C06
+//@   nowrite
+//@   ensures fresh(result)
+
+//@ func clone
+//@   props C06
+//@   nosafety
+//@   nowrite
+//@   ensures fresh(result)
+
+//@ func nodeFromSlice
+//@   props C06
+//@   nosafety
+//@   nowrite
+//@   ensures fresh(result)
+
+//@ func doAssoc
+//@   props C06
+//@   nosafety
+//@   nowrite
+//@   ensures fresh(result)
+
+//@ func newPath
+//@   props C06
+//@   nosafety
+//@   nowrite
+
+//@ func vector.pushTail
+//@   props C06
+//@   nosafety
+//@   nowrite
+
+//@ func vector.popTail
+//@   props C06
+//@   nosafety
+//@   nowrite
+
+//@ func vector.sliceFor
+//@   props C06
+//@   nosafety
+//@   nowrite
+//@   requires [wf] 0 <= v.count && v.count < 4611686018427387904
+
+//@ func vector.Conj
+//@   props C06
+//@   nosafety
+//@   nowrite
+//@   requires [wf] 0 <= v.count && v.count < 4611686018427387904
+
+//@ func vector.Pop
+//@   props C06
+//@   nosafety
+//@   nowrite
+//@   requires [wf] 0 <= v.count && v.count < 4611686018427387904
+
+//@ func Vector.Conj
+//@   nowrite
+//@ func Vector.Pop
+//@   nowrite
